@@ -16,6 +16,9 @@ pub enum ReqSpec {
     Rsi,
     Cus(FunctionCode, u8, Vec<u8>),
     Dec(Vec<u8>),
+    /// WriteMultipleRegisters / ReadWriteMultipleRegisters around a `Data` taken from a DECODED response
+    WmrX(u16, Vec<u8>),
+    RwmX(u16, u16, u16, Vec<u8>),
 }
 
 #[derive(Clone, Debug)]
@@ -136,6 +139,8 @@ pub fn parse_req<'a>(t: &'a [&'a str]) -> Option<(ReqSpec, &'a [&'a str])> {
             (ReqSpec::Cus(fc, b, parse_hex(t.get(2)?)?), t.get(3..)?)
         }
         "DEC" => (ReqSpec::Dec(parse_hex(t.get(1)?)?), t.get(2..)?),
+        "WMRX" => (ReqSpec::WmrX(u(1)?, parse_hex(t.get(2)?)?), t.get(3..)?),
+        "RWMX" => (ReqSpec::RwmX(u(1)?, u(2)?, u(3)?, parse_hex(t.get(4)?)?), t.get(5..)?),
         _ => return None,
     })
 }
@@ -227,6 +232,18 @@ pub fn with_req<R>(spec: &ReqSpec, k: impl for<'a> FnOnce(Option<Request<'a>>) -
         ReqSpec::Dec(b) => match Request::try_from(&b[..]) {
             Ok(v) => k(Some(v)),
             Err(_) => k(None),
+        },
+        ReqSpec::WmrX(a, b) => match Response::try_from(&b[..]) {
+            Ok(Response::ReadHoldingRegisters(d)) | Ok(Response::ReadInputRegisters(d)) | Ok(Response::ReadWriteMultipleRegisters(d)) => {
+                k(Some(Request::WriteMultipleRegisters(*a, d)))
+            }
+            _ => k(None),
+        },
+        ReqSpec::RwmX(ra, rq, wa, b) => match Response::try_from(&b[..]) {
+            Ok(Response::ReadHoldingRegisters(d)) | Ok(Response::ReadInputRegisters(d)) | Ok(Response::ReadWriteMultipleRegisters(d)) => {
+                k(Some(Request::ReadWriteMultipleRegisters(*ra, *rq, *wa, d)))
+            }
+            _ => k(None),
         },
     }
 }
